@@ -7,8 +7,9 @@ package h
 // all run them; C11 and C16 use the recursion family through GenRec().
 //
 // (A) signatures x bodies x call forms: two function literals f and g, each
-//     one of the 13 well-formed (signature, body) combinations of 5 signatures
-//     (no parameter, one, two, variadic, one + variadic) and 4 bodies that
+//     one of the 15 well-formed (signature, body) combinations of 5 signatures
+//     (no parameter, one, two, variadic, one + variadic) and 5 bodies (one of
+//     which fails at run time for a variadic second parameter) that
 //     mention only parameters (so bodies of different signatures compile to
 //     the same instructions), called with 6 argument forms (0..3 plain
 //     arguments, a spread array, a plain argument + a spread array).
@@ -29,9 +30,9 @@ var callSigs = []string{"()", "(p)", "(p, q)", "(...p)", "(p, ...q)"}
 var callBodies = [][]string{
 	{""},
 	{"", "return p"},
-	{"", "return p", "return q", "return [p, q]"},
+	{"", "return p", "return q", "return [p, q]", "return p - q"},
 	{"", "return p"},
-	{"", "return p", "return q", "return [p, q]"},
+	{"", "return p", "return q", "return [p, q]", "return p - q"},
 }
 
 var callArgs = []string{"()", "(a)", "(a, b)", "(a, b, 3)", "(xs...)", "(a, xs...)"}
